@@ -10,6 +10,7 @@ import (
 	"fmt"
 	"os"
 	"sort"
+	"strings"
 	"time"
 
 	"github.com/relab/hotstuff"
@@ -42,12 +43,28 @@ func viewOf(class string) hotstuff.View {
 
 type c12world struct {
 	n, q int
+	big  bool // a large configuration: the signer classes take the highest ids, so that id-indexed encodings grow past one machine word
+	memo map[string]hotstuff.QuorumSignature
 	secs []*hx.Sec
 	b1   *hotstuff.Block
 	ver  *cert.Authority // verifier: the last replica
 }
 
 func (w *c12world) signers(class string) []int {
+	if w.big {
+		switch class {
+		case "one":
+			return []int{w.n}
+		case "quorum":
+			return seqInts(w.n-w.q+1, w.n)
+		case "quorumrev":
+			ids := seqInts(w.n-w.q+1, w.n)
+			for i, j := 0, len(ids)-1; i < j; i, j = i+1, j-1 {
+				ids[i], ids[j] = ids[j], ids[i]
+			}
+			return ids
+		}
+	}
 	switch class {
 	case "one":
 		return []int{1}
@@ -75,9 +92,19 @@ func (w *c12world) sigOver(class string, msg func(id int) []byte) hotstuff.Quoru
 	}
 	var sigs []hotstuff.QuorumSignature
 	for _, id := range ids {
-		s, err := w.secs[id-1].Base.Sign(msg(id))
-		if err != nil {
-			panic(err)
+		m := msg(id)
+		k := fmt.Sprint(id, ":", hx8(m))
+		s, ok := w.memo[k]
+		if !ok {
+			var err error
+			s, err = w.secs[id-1].Base.Sign(m)
+			if err != nil {
+				panic(err)
+			}
+			if w.memo == nil {
+				w.memo = map[string]hotstuff.QuorumSignature{}
+			}
+			w.memo[k] = s
 		}
 		sigs = append(sigs, s)
 	}
@@ -218,7 +245,7 @@ func c12(args []string) error {
 	fs := flag.NewFlagSet("c12", flag.ExitOnError)
 	out := fs.String("out", "", "output ndjson")
 	cases := fs.String("cases", "", "wire_objects.ndjson written by TLC")
-	schemes := fs.String("schemes", "ecdsa,eddsa,bls12", "schemes")
+	schemes := fs.String("schemes", "ecdsa,eddsa,bls12,bls12/n67", "schemes")
 	_ = fs.Parse(args)
 	o, err := newNDJSON(*out)
 	if err != nil {
@@ -246,12 +273,19 @@ func c12(args []string) error {
 	str := func(m map[string]any, k string) string { s, _ := m[k].(string); return s }
 	bl := func(m map[string]any, k string) bool { b, _ := m[k].(bool); return b }
 	for _, scheme := range splitComma(*schemes) {
-		const n = 4
+		n := 4
+		if i := strings.Index(scheme, "/n"); i > 0 { // "bls12/n67": the same grammar in a configuration of 67 replicas
+			if _, err := fmt.Sscan(scheme[i+2:], &n); err != nil {
+				return err
+			}
+		}
+		label := scheme
+		scheme = strings.Split(scheme, "/")[0]
 		secs, err := hx.NewSecCluster(hx.SecOpts{N: n, Scheme: scheme, Opts: []core.RuntimeOption{core.WithAggregateQC()}})
 		if err != nil {
 			return err
 		}
-		w := &c12world{n: n, q: hotstuff.QuorumSize(n), secs: secs, ver: secs[n-1].Auth}
+		w := &c12world{n: n, q: hotstuff.QuorumSize(n), secs: secs, ver: secs[n-1].Auth, big: n > 8}
 		w.b1 = hotstuff.NewBlock(hotstuff.GetGenesis().Hash(), hotstuff.NewQuorumCert(nil, 0, hotstuff.GetGenesis().Hash()),
 			&clientpb.Batch{Commands: []*clientpb.Command{{ClientID: 1, SequenceNumber: 1, Data: []byte("a")}}}, 1, 1)
 		for _, s := range secs {
@@ -267,7 +301,7 @@ func c12(args []string) error {
 		}
 		for _, c := range cs {
 			kind := str(c.O, "kind")
-			line := obj{"id": c.ID, "scheme": scheme, "kind": kind, "case": c.O}
+			line := obj{"id": c.ID, "scheme": label, "kind": kind, "case": c.O}
 			switch kind {
 			case "qc":
 				h := w.hashOf(str(c.O, "hash"))
@@ -380,7 +414,7 @@ func c12(args []string) error {
 						gh := hotstuffpb.BlockFromProto(pb).Hash()
 						got = hx8(gh[:])
 					}
-					o.emit(obj{"id": 0, "scheme": scheme, "kind": "fetch", "requested": hx8(wh[:]), "got": got, "honest": honest == 1, "lies": lies})
+					o.emit(obj{"id": 0, "scheme": label, "kind": "fetch", "requested": hx8(wh[:]), "got": got, "honest": honest == 1, "lies": lies})
 				}
 			}
 		}
